@@ -354,7 +354,7 @@ def run_device(rng, tier, res, setup):
     # history the classifier needs: which descriptor the handler was last started for (an IN in a data stage),
     # and whether an ACK that was not meant for endpoint 0 went by while a packet of ours was still un-ACKed
     hist = {"last_started": None, "foreign_ack_pending": False, "accounted": 0, "zlp_key": None,
-            "unacked_pending": False, "stale_ack_consumed": False}
+            "unacked_pending": False, "stale_ack_consumed": False, "abandon_dirty": False}
 
     def account():
         """every device packet so far was the response to a host packet"""
@@ -438,6 +438,11 @@ def run_device(rng, tier, res, setup):
             return "setup_failed"
         res.event("setup_acked")
         yield from host.gap()
+        if note.startswith("abandoned") and (hist["stale_ack_consumed"] or hist["foreign_ack_pending"] or not note.startswith("abandoned after 0 ")):
+            hist["abandon_dirty"] = True      # the handler was left in its data stage with an advanced offset (survives further abandoned transfers)
+        elif not note.startswith("abandoned"):
+            hist["abandon_dirty"] = False     # a status stage or a STALL ended the previous transfer
+        carried = hist["abandon_dirty"]
         hist["foreign_ack_pending"] = False
         hist["stale_ack_consumed"] = False
         if rng.random() < (0.8 if hist["unacked_pending"] else 0.3):
@@ -523,7 +528,7 @@ def run_device(rng, tier, res, setup):
                 elif hist["foreign_ack_pending"]:
                     # a packet of this transfer was not ACKed, then an ACK for somebody else went by, then came the retry
                     mech = "retry_differs_after_ack_meant_for_other_function"
-                elif note.startswith("abandoned") and not note.startswith("abandoned after 0 ") and offset == 0 and npk == 0:
+                elif carried and offset == 0 and npk == 0:
                     mech = "first_packet_wrong_after_abandoned_data_stage"
                 elif (r["kind"] == "handshake" and r["pid"] == U.STALL and setup.variant == "mux" and key not in setup.runtime
                       and prev_started in setup.runtime and offset == 0):
@@ -763,6 +768,8 @@ def run_standalone(rng, tier, res, setup):
                     o["last_key"] = key          # last *existing* descriptor requested (missing ones in between do not matter)
                 if raw is None:
                     o["exp"] = "stall"
+                    # a sub-handler may need a few cycles to reach its own verdict: keep the request up that long
+                    o["quiet_len"] = max(o["quiet_len"], 6)
                 else:
                     o["exp"] = raw[sp:sp + min(mps, length - sp)]
                 o.update(state=RESP, idx=0, wait=0, in_packet=False, stalled_here=0)
